@@ -18,6 +18,14 @@ enum Op {
 }
 const NAMES: [&str; 3] = ["a", "b", "size"];
 
+/// the value the k-th operation binds: every third one is null (a binding like any other)
+fn bound(k: usize) -> Value {
+    match k % 3 {
+        2 => Value::Null,
+        _ => Value::Int(k as i64),
+    }
+}
+
 fn exec(ops: &[Op], i: &mut usize, ctx: &mut Context, out: &mut Vec<String>) {
     while *i < ops.len() {
         let k = *i;
@@ -26,9 +34,9 @@ fn exec(ops: &[Op], i: &mut usize, ctx: &mut Context, out: &mut Vec<String>) {
             Op::Def(n) => {
                 // alternate the two ways of adding a variable
                 if k % 2 == 0 {
-                    ctx.add_variable_from_value(NAMES[n], Value::Int(k as i64));
+                    ctx.add_variable_from_value(NAMES[n], bound(k));
                 } else {
-                    ctx.add_variable(NAMES[n], Value::Int(k as i64)).unwrap();
+                    ctx.add_variable(NAMES[n], bound(k)).unwrap();
                 }
             }
             Op::Get(n) => out.push(sx_result(&ctx.get_variable(NAMES[n]))),
@@ -67,7 +75,7 @@ fn emit_ops(em: &mut Emit, ops: &[Op], kind: &str) {
     let mut req = String::from("(ctxops (ctx (scopes (scope)) (funs))");
     for (k, o) in ops.iter().enumerate() {
         match o {
-            Op::Def(n) => req.push_str(&format!(" (def {} (int {}))", sx_str(NAMES[*n]), k)),
+            Op::Def(n) => req.push_str(&format!(" (def {} {})", sx_str(NAMES[*n]), sx_value(&bound(k)))),
             Op::Get(n) => req.push_str(&format!(" (get {})", sx_str(NAMES[*n]))),
             Op::Push => req.push_str(" (push)"),
             Op::Pop => req.push_str(" (pop)"),
@@ -135,6 +143,12 @@ fn macro_programs(em: &mut Emit, rng: &mut Rng, n: u64) {
             ("a".into(), Value::Int(100)),
             ("size".into(), Value::Int(7)),
             ("l".into(), Value::List(std::sync::Arc::new(vec![Value::Int(1), Value::Int(2)]))),
+            // ranges whose elements are null, and a map whose keys are uints beyond the int range
+            ("ln".into(), Value::List(std::sync::Arc::new(vec![Value::Int(1), Value::Null, Value::Int(3)]))),
+            ("mu".into(), Value::Map(cel_interpreter::objects::Map { map: std::sync::Arc::new(std::collections::HashMap::from([
+                (cel_interpreter::objects::Key::Uint(2), Value::Int(1)),
+                (cel_interpreter::objects::Key::Uint(u64::MAX), Value::Int(2)),
+            ])) })),
         ],
         funs: vec![HostFn { kind: "hv1", name: "b".into() }, HostFn { kind: "hv1", name: "idf".into() }],
     };
@@ -157,7 +171,13 @@ fn macro_programs(em: &mut Emit, rng: &mut Rng, n: u64) {
         }
         let v = *rng.pick(names);
         let inner = gen(rng, depth - 1, names, leafs);
-        let range = if rng.chance(1, 3) { format!("[{}]", leafs(rng)) } else { "l".to_string() };
+        let range = match rng.below(9) {
+            0 | 1 | 2 => format!("[{}]", leafs(rng)),
+            3 => "ln".to_string(),
+            4 => "[null]".to_string(),
+            5 => "mu".to_string(),
+            _ => "l".to_string(),
+        };
         match rng.below(5) {
             0 => format!("{}.map({}, [{}, {}])", range, v, v, inner),
             1 => format!("{}.filter({}, {} == {} || {}.size() >= 0)", range, v, v, v, inner_list(&inner)),
